@@ -6,7 +6,7 @@ use std::sync::atomic::{AtomicUsize, Ordering};
 use std::sync::Arc;
 
 /// (routed path, preference, status, size, header name, header value, stream) — same table as lean/KvarnModel/Drv/C03.lean
-const TABLE: [(&str, &str, u16, usize, &str, &str, bool); 14] = [
+const TABLE: [(&str, &str, u16, usize, &str, &str, bool); 19] = [
     ("/full", "full", 200, 60, "", "", false),
     ("/qm", "qm", 200, 60, "", "", false),
     ("/none", "none", 200, 60, "", "", false),
@@ -23,7 +23,35 @@ const TABLE: [(&str, &str, u16, usize, &str, &str, bool); 14] = [
     // the preference depends on the request: QueryMatters for `?x=1`, Full otherwise — both key variants of one
     // path can be live at the same time
     ("/mix", "mix", 200, 60, "", "", false),
+    // pages with a vary rule on `x-lang` (classes en = default, sv, de); what the handler declares depends on the class
+    // (see `vary_out`): the variants of one page differ in lifetime, preference, status, cache-control, streaming, size
+    ("/vlife", "vlife", 200, 60, "", "", false),
+    ("/vmix", "vmix", 200, 60, "", "", false),
+    ("/vttl", "vttl", 200, 60, "", "", false),
+    ("/vmix2", "vmix2", 200, 60, "", "", false),
+    ("/vbig", "vbig", 200, 60, "", "", false),
 ];
+/// the class of a request on a page with the vary rule: event field `a` = no header (default class), `b` = sv, `c` = de
+fn class_of(variant: &str) -> usize {
+    match variant { "b" => 1, "c" => 2, _ => 0 }
+}
+/// (preference, status, size, header name, header value, stream) of a vary page for a class — same as `varyOut` in Drv/C03.lean
+fn vary_out(kind: &str, class: usize) -> (&'static str, u16, usize, &'static str, &'static str, bool) {
+    match (kind, class) {
+        ("vlife", _) => ("full", 200, 60, "kvarn-cache-control", "2s", false),
+        ("vmix", 1) => ("none", 200, 60, "", "", false),
+        ("vmix", 2) => ("full", 403, 60, "", "", false),
+        ("vttl", 1) => ("full", 200, 60, "kvarn-cache-control", "1s", false),
+        ("vttl", 2) => ("full", 200, 60, "cache-control", "max-age=2", false),
+        ("vmix2", 1) => ("full", 200, 60, "kvarn-cache-control", "none", false),
+        ("vmix2", 2) => ("full", 200, 60, "", "", true),
+        ("vbig", 1) => ("full", 200, 4194304, "", "", false),
+        _ => ("full", 200, 60, "", "", false),
+    }
+}
+fn is_vary(pi: usize) -> bool {
+    TABLE[pi].1.starts_with('v')
+}
 const QUERIES: [Option<&str>; 4] = [None, Some(""), Some("x=1"), Some("x=2")];
 
 fn build_host(cache: bool, permissive: bool) -> (Arc<HostCollection>, Vec<Arc<AtomicUsize>>) {
@@ -38,6 +66,12 @@ fn build_host(cache: bool, permissive: bool) -> (Arc<HostCollection>, Vec<Arc<At
             *path,
             prepare!(req, _h, _p, _a, move |c: Arc<AtomicUsize>, idx: usize, pref: &'static str, status: u16, size: usize, hn: &'static str, hv: &'static str, stream: bool| {
                 let n = c.fetch_add(1, Ordering::SeqCst);
+                // pages with a vary rule: the output is a function of the request's class
+                let vo = if pref.starts_with('v') {
+                    let class = match req.headers().get("x-lang").and_then(|v| v.to_str().ok()) { Some(v) if v.starts_with("sv") => 1, Some(v) if v.starts_with("de") => 2, _ => 0 };
+                    vary_out(pref, class)
+                } else { (*pref, *status, *size, *hn, *hv, *stream) };
+                let (pref, status, size, hn, hv, stream) = (&vo.0, &vo.1, &vo.2, &vo.3, &vo.4, &vo.5);
                 let mut body = format!("p{idx}#{n};").into_bytes();
                 body.resize(*size, b'.');
                 let mut r = Response::new(Bytes::from(body));
@@ -61,6 +95,11 @@ fn build_host(cache: bool, permissive: bool) -> (Arc<HostCollection>, Vec<Arc<At
     }
     let mut host = Host::unsecure("localhost", "/nonexistent", ext, opts);
     host.limiter.disable();
+    for (path, pref, ..) in TABLE.iter() {
+        if pref.starts_with('v') {
+            host.vary.add_mut(*path, vary::Settings::empty().add_rule("x-lang", |v| Cow::Borrowed(if v.starts_with("sv") { "sv" } else if v.starts_with("de") { "de" } else { "en" }), "en"));
+        }
+    }
     if !cache {
         host.disable_response_cache();
     }
@@ -72,7 +111,9 @@ fn gen_events(rng: &mut Rng, timed: bool) -> String {
     let mut t = 0usize;
     // one history in six concentrates on the handler with both key variants and clears often
     let mixy = !timed && rng.chance(1, 6);
-    let focus: Vec<usize> = if timed { vec![6, 7, 0] } else if mixy { vec![13] } else { (0..rng.range(1, 4)).map(|_| rng.below(TABLE.len())).collect() };
+    // one history in five concentrates on the pages with a vary rule
+    let varyy = rng.chance(1, 5);
+    let focus: Vec<usize> = if timed && varyy { vec![14, 16, 14] } else if timed { vec![6, 7, 0] } else if mixy { vec![13] } else if varyy { vec![rng.range(14, 18)] } else { (0..rng.range(1, 4)).map(|_| rng.below(TABLE.len())).collect() };
     list((0..n).map(|_| {
         if timed && rng.chance(1, 3) {
             t += *rng.pick(&[300usize, 1600, 2600]);
@@ -87,7 +128,7 @@ fn gen_events(rng: &mut Rng, timed: bool) -> String {
                 let p = if rng.chance(4, 5) { *rng.pick(&focus) } else { rng.below(TABLE.len()) };
                 let m = *rng.pick(&["G", "G", "G", "G", "H", "H", "P", "O", "T"]);
                 let ims = *rng.pick(&["none", "none", "none", "new", "old"]);
-                format!("R:{t}:{m}:{p}:{}:{ims}:{}", rng.below(4), if rng.chance(1, 2) { "a" } else { "b" })
+                format!("R:{t}:{m}:{p}:{}:{ims}:{}", rng.below(4), *rng.pick(&["a", "a", "b", "b", "c"]))
             }
         }
     }))
@@ -110,6 +151,11 @@ impl Group for History {
         for _ in 0..timed {
             v.push(format!("c03.hist 1 0 {}", gen_events(rng, true)));
         }
+        // pages with a vary rule and lifetimes: a second class joins the entry half-way through its lifetime (the first
+        // must still expire on time), a class with a lifetime joins an entry without one (and must expire)
+        v.push("c03.hist 1 0 [R:0:G:14:0:none:a,R:1600:G:14:0:none:b,R:2600:G:14:0:none:a,R:2610:G:14:0:none:b]".to_owned());
+        v.push("c03.hist 1 0 [R:0:G:16:0:none:a,R:300:G:16:0:none:b,R:1900:G:16:0:none:b,R:1910:G:16:0:none:a]".to_owned());
+        v.push("c03.hist 1 0 [R:0:G:16:0:none:b,R:300:G:16:0:none:c,R:1600:G:16:0:none:c,R:1610:G:16:0:none:b]".to_owned());
         // both key variants of one path, then a clear of one of them; a safe non-GET method after a GET
         v.push("c03.hist 1 0 [R:5:G:13:2:none:a,R:10:G:13:3:none:a,K:13:2,R:15:G:13:2:none:a,R:20:G:13:3:none:a]".to_owned());
         v.push("c03.hist 1 0 [R:5:G:13:3:none:a,R:10:G:13:2:none:a,K:13:3,R:15:G:13:3:none:a,R:20:G:13:2:none:a]".to_owned());
@@ -150,6 +196,9 @@ impl Group for History {
                     let uri = match QUERIES[f[4].parse::<usize>().unwrap()] { None => typed.to_owned(), Some(q) => format!("{typed}?{q}") };
                     let mk = || {
                         let mut b = Request::builder().method(match f[2] { "G" => "GET", "H" => "HEAD", "O" => "OPTIONS", "T" => "TRACE", _ => "POST" }).uri(&uri);
+                        if is_vary(pi) && class_of(f[6]) > 0 {
+                            b = b.header("x-lang", if class_of(f[6]) == 1 { "sv-SE" } else { "de" });
+                        }
                         if f[5] != "none" {
                             let now = time::OffsetDateTime::now_utc() - if f[5] == "old" { time::Duration::seconds(10) } else { time::Duration::ZERO };
                             b = b.header("if-modified-since", now.format(&comprash::HTTP_DATE).unwrap());
@@ -206,6 +255,8 @@ impl Group for History {
         // (handler, query form) -> replies produced before the last explicit clear of that page
         let mut cleared: std::collections::HashMap<(usize, String), Vec<String>> = Default::default();
         let mut oi = 0;
+        // (handler, reply) -> (when it was first produced, the lifetime it was produced with)
+        let mut first_seen: std::collections::HashMap<(usize, String), (u64, Option<u64>)> = Default::default();
         for ev in parse_list(p[3])? {
             let f: Vec<&str> = ev.split(':').collect();
             if f[0] == "K" {
@@ -227,10 +278,15 @@ impl Group for History {
             let o = outs.get(oi)?.clone();
             oi += 1;
             let pi: usize = f[3].parse().ok()?;
-            let t = TABLE[pi];
+            let mut t = TABLE[pi];
+            if is_vary(pi) {
+                let o = vary_out(t.1, class_of(f[6]));
+                t = (t.0, o.0, o.1, o.2, o.3, o.4, o.5);
+            }
             let uncacheable = t.1 == "none" || (t.2 == 403 && !permissive) || t.5 == "none" || t.3 >= 4 * 1024 * 1024 || t.6 || !matches!(f[2], "G" | "H");
             if o == "304" {
-                if uncacheable && matches!(f[2], "G" | "H") && t.1 != "full" && t.1 != "mix" {
+                // (on a page with a vary rule the 304 vouches for the page's entry, which another class may have stored)
+                if uncacheable && matches!(f[2], "G" | "H") && t.1 != "full" && t.1 != "mix" && !is_vary(pi) {
                     return Some((format!("stored:{line}"), format!("304 for the uncacheable {}", t.0)));
                 }
                 continue;
@@ -239,6 +295,18 @@ impl Group for History {
             if let Some(before) = cleared.get(&(pi, f[4].to_owned())) {
                 if before.contains(&o) {
                     return Some((format!("cleared:{line}"), format!("{}?{} was cleared, yet the reply {o} produced before the clear was served after it", t.0, f[4])));
+                }
+            }
+            // never served more than its lifetime after it was stored (0.4 s of slack for the real clock)
+            {
+                let life_ms: Option<u64> = match (t.4, t.5) { ("kvarn-cache-control", "1s") => Some(1000), ("kvarn-cache-control", "2s") => Some(2000), ("cache-control", "max-age=2") => Some(2000), _ => None };
+                let now: u64 = f[1].parse().ok()?;
+                match first_seen.get(&(pi, o.clone())) {
+                    Some((t0, Some(l))) if now > *t0 + *l + 400 => {
+                        return Some((format!("stale:{line}"), format!("{} reply {o} was stored at {t0} ms with a lifetime of {l} ms and served at {now} ms", t.0)));
+                    }
+                    Some(_) => {}
+                    None => { first_seen.insert((pi, o.clone()), (now, life_ms)); }
                 }
             }
             let e = seen.entry(pi).or_default();
@@ -257,7 +325,7 @@ impl Group for History {
         v.iter().any(|x| x == "304") || { let mut s = v.clone(); s.sort(); s.windows(2).any(|w| w[0] == w[1]) }
     }
     fn classify(&self, l: &str, o: &str) -> String {
-        format!("{}{}", if l.contains(":1600:") || l.contains(":2600:") { "timed " } else { "" }, if o.contains("304") { "304" } else { "plain" })
+        format!("{}{}{}", if l.split(':').any(|f| f.parse::<usize>().map_or(false, |t| t >= 300 && t % 5 == 0 && l.contains(&format!("R:{t}:")))) && (l.contains(":6:") || l.contains(":7:") || l.contains(":14:") || l.contains(":16:")) { "timed " } else { "" }, if l.contains(":14:") || l.contains(":15:") || l.contains(":16:") || l.contains(":17:") || l.contains(":18:") { "vary " } else { "" }, if o.contains("304") { "304" } else { "plain" })
     }
     fn shrink(&self, line: &str) -> Vec<String> {
         let p: Vec<&str> = line.split(' ').collect();
